@@ -20,7 +20,7 @@ open Pithos.Proto Pithos.SigV4 Pithos.Chunked
 
 /-- Which variant of the SigV4 model the drivers compare the implementation with.
 FLIP to `Fix.patched` once fixes/C29-collapse-header-spaces.patch is committed to /repo. -/
-def codeFix : Fix := Fix.asIs
+def codeFix : Fix := Fix.patched
 
 def realCrypto : Crypto := { sha256hex := Pithos.Crypto.sha256hex, hmac := Pithos.Crypto.hmacSha256 }
 
